@@ -17,16 +17,19 @@ fn norm(p: Option<u64>) -> u64 {
     p.unwrap_or(0)
 }
 
-fn promise_case<P: G>(cfg: Cfg, j: usize, tier: Tier) -> Box<dyn Case> {
-    case(format!("{}/{}/position={}", P::NAME, cfg.key(), j), move |_v| {
+fn promise_case<P: G>(cfg: Cfg, j: usize, tier: Tier, top: bool) -> Box<dyn Case> {
+    case(format!("{}/{}/position={}/value={}", P::NAME, cfg.key(), j, if top { "max" } else { "mid" }), move |_v| {
         fg::clear_intern();
         let _ = tier;
         let mut res = CaseResult::new("explored");
         let max = cfg.max_value();
         let mut base = Wit::default_for(&cfg);
-        // a value with room on both sides where the bit length allows
+        // a value with room on both sides where the bit length allows; or the largest value of the range
         if cfg.n >= 2 && (base.values[j] < 2 || base.values[j] > max - 2) {
             base.values[j] = max / 2 + 1;
+        }
+        if top {
+            base.values[j] = max;
         }
         let vj = base.values[j];
         let mut created: Vec<Option<u64>> = vec![None, Some(0), Some(1), Some(vj.saturating_sub(1)), Some(vj)];
@@ -114,6 +117,39 @@ fn promise_case<P: G>(cfg: Cfg, j: usize, tier: Tier) -> Box<dyn Case> {
                     res.machinery_error("unreachable: out-of-range promise equal to an in-range one");
                 }
             }
+            // the same triple inside a batch, before and after a companion with / without promises
+            {
+                let comp_cfg = Cfg::new(cfg.n, 1, 1, cfg.d);
+                for comp_promise in [None, Some(1u64)] {
+                    let mut cw = Wit::default_for(&comp_cfg);
+                    if cfg.n >= 2 {
+                        cw.values[0] = 2;
+                    } else {
+                        cw.values[0] = 1;
+                    }
+                    cw.promises[0] = comp_promise;
+                    let comp = build_cached::<P>(&comp_cfg, &cw).expect("valid");
+                    let comp_proof = lib_prove(&comp, &CTX_A, &mut HRng::chacha(43)).expect("honest");
+                    for first in [true, false] {
+                        let (sts, proofs) = if first {
+                            (vec![built.statement.clone(), comp.statement.clone()], vec![P::proof_clone(&proof), P::proof_clone(&comp_proof)])
+                        } else {
+                            (vec![comp.statement.clone(), built.statement.clone()], vec![P::proof_clone(&comp_proof), P::proof_clone(&proof)])
+                        };
+                        let mut ts = vec![CTX_A.transcript(), CTX_A.transcript()];
+                        let obs = verify_observed(&sts, &proofs, &mut ts, VerifyAction::VerifyOnly);
+                        res.executions += 1;
+                        res.validated += 1;
+                        *res.outcome_counter(&format!("in-batch:{}", obs.class())) += 1;
+                        if !obs.is_ok() {
+                            res.violate(
+                                format!("created={:?}/in-batch(first={},companion-promise={:?})", p, first, comp_promise),
+                                format!("valid triple rejected inside a batch: {}", obs.describe()),
+                            );
+                        }
+                    }
+                }
+            }
             // verifier-side half over F: the value-generator coordinate of the compared element is the reference's
             if P::IS_F {
                 if let Some(rp) = ref_proof_of(&proof) {
@@ -166,8 +202,10 @@ pub fn run(rep: &mut Report) {
     let mut cases: Vec<Box<dyn Case>> = Vec::new();
     for cfg in lattice(tier.thorough()) {
         for j in positions(cfg.m, tier.thorough()) {
-            cases.push(promise_case::<F>(cfg, j, tier));
-            cases.push(promise_case::<RistrettoPoint>(cfg, j, tier));
+            for top in [false, true] {
+                cases.push(promise_case::<F>(cfg, j, tier, top));
+                cases.push(promise_case::<RistrettoPoint>(cfg, j, tier, top));
+            }
         }
     }
     rep.explore("C07", cases);
